@@ -26,7 +26,7 @@ func (w *World) newEnc(fn *ssa.Function, con *FuncContract, prop string) *FnEnc 
 	return &FnEnc{W: w, fn: fn, con: con, prop: prop,
 		vals: map[ssa.Value]Val{}, guard: map[*ssa.BasicBlock]string{}, exit: map[*ssa.BasicBlock]State{}, entry: map[*ssa.BasicBlock]State{},
 		edge: map[[2]int]string{}, heapVars: map[string]HeapVar{}, rangeVis: map[ssa.Value]HeapVar{}, rangeMap: map[ssa.Value]Val{},
-		debugNames: map[string][]debugBinding{}, lets: map[string]Val{}, calleeUsed: map[string]bool{}, modRefsFn: map[string][]string{}}
+		debugNames: map[string][]debugBinding{}, lets: map[string]Val{}, calleeUsed: map[string]bool{}, modRefsFn: map[string][]modT{}}
 }
 
 func (e *FnEnc) run() {
@@ -44,6 +44,15 @@ func (e *FnEnc) run() {
 		e.initState[name] = name + "@0"
 	}
 	e.emit("(assert (>= alloc@0 0))")
+	for _, name := range sortedKeys(e.heapVars) {
+		if strings.HasPrefix(name, "MD.") {
+			ks, _ := splitArraySort(strings.TrimSuffix(strings.TrimPrefix(e.heapVars[name].Sort, "(Array Int "), ")"))
+			e.emit(fmt.Sprintf("(assert (forall ((k!n %s)) (not (select (select %s@0 0) k!n))))", ks, name))
+		}
+		if name == MapLen.Name {
+			e.emit("(assert (= (select ML@0 0) 0))")
+		}
+	}
 	e.cur = copyState(e.initState)
 	e.curGuard = "true"
 	// parameters and free variables
@@ -117,7 +126,7 @@ func (e *FnEnc) bindFail(what, msg string) {
 }
 
 // addModRef evaluates a modifies clause into (heap, ref) pairs.
-func (e *FnEnc) addModRef(env *Env, c Clause, into map[string][]string) {
+func (e *FnEnc) addModRef(env *Env, c Clause, into map[string][]modT) {
 	v, err := env.EvalVal(c.Expr)
 	if err != nil {
 		e.bindFail("modifies", err.Error()+" in "+c.Src)
@@ -128,10 +137,17 @@ func (e *FnEnc) addModRef(env *Env, c Clause, into map[string][]string) {
 		if _, ok := e.heapVars[h.Name]; !ok {
 			e.heapVars[h.Name] = h
 		}
-		into[h.Name] = append(into[h.Name], ref)
+		into[h.Name] = append(into[h.Name], modT{ref: ref})
 	}
 	if v.Loc != nil {
-		add(v.Loc.Heap, v.Loc.Ref)
+		if _, ok := e.heapVars[v.Loc.Heap.Name]; !ok {
+			e.heapVars[v.Loc.Heap.Name] = v.Loc.Heap
+		}
+		t := modT{ref: v.Loc.Ref}
+		if v.Loc.Elem {
+			t.idx = v.Loc.Idx
+		}
+		into[v.Loc.Heap.Name] = append(into[v.Loc.Heap.Name], t)
 		return
 	}
 	switch u := v.Ty.Underlying().(type) {
@@ -393,10 +409,11 @@ func (e *FnEnc) loopHeader(b *ssa.BasicBlock, li *loopInfo, fwd []*ssa.BasicBloc
 	for _, p := range phis {
 		entryVals[p] = Val{T: e.define("phi.in."+mangle(p.Name()), e.sorts().SortOf(p.Type()), phiIn(p, fwd)), Ty: p.Type()}
 	}
-	li.modRefs = map[string][]string{}
+	li.modRefs = map[string][]modT{}
 	if lc != nil {
 		envE := e.specEnv(pre, e.initState, entryVals)
 		envE.loopOrd = li.ordinal
+		envE.pre = pre
 		for _, c := range lc.Modifies {
 			e.addModRef(envE, c, li.modRefs)
 		}
@@ -404,13 +421,7 @@ func (e *FnEnc) loopHeader(b *ssa.BasicBlock, li *loopInfo, fwd []*ssa.BasicBloc
 			if !clauseActive(c, e.prop) {
 				continue
 			}
-			t, err := envE.EvalBool(c.Expr)
-			name := fmt.Sprintf("loop%d.inv%d.entry", li.ordinal, k+1)
-			if err != nil {
-				e.bindFail(name, err.Error()+" in "+c.Src)
-				continue
-			}
-			e.oblige(&Obligation{Name: name, Kind: "inv-entry", Clause: c.Src, Tags: c.Tags, Guard: e.curGuard, Goal: t, Pos: fmt.Sprintf("%s:%d", shortFile(c.File), c.Line)})
+			e.obligeClause(envE, c, fmt.Sprintf("loop%d.inv%d.entry", li.ordinal, k+1), "inv-entry", e.curGuard, fmt.Sprintf("%s:%d", shortFile(c.File), c.Line))
 		}
 	}
 	// 2. havoc
@@ -442,6 +453,7 @@ func (e *FnEnc) loopHeader(b *ssa.BasicBlock, li *loopInfo, fwd []*ssa.BasicBloc
 	if lc != nil {
 		envH := e.specEnv(e.cur, e.initState, nil)
 		envH.loopOrd = li.ordinal
+		envH.pre = li.preState
 		for _, c := range lc.Invariants {
 			if !clauseActive(c, e.prop) {
 				continue
@@ -453,13 +465,61 @@ func (e *FnEnc) loopHeader(b *ssa.BasicBlock, li *loopInfo, fwd []*ssa.BasicBloc
 	}
 }
 
-func (e *FnEnc) frameFact(nw, old, allocBound string, except []string) string {
+type modT struct{ ref, idx string }
+
+// frameFact: every object with reference <= allocBound (or every object, if allocBound is empty) that is not a
+// declared modification target has the same value in nw as in old; for targets that name one slice element,
+// the other elements of that backing array are unchanged too.
+func (e *FnEnc) frameFact(nw, old, allocBound string, except []modT) string {
+	return e.frameFactP(nw, old, allocBound, except, true)
+}
+
+func (e *FnEnc) frameGoal(nw, old, allocBound string, except []modT) string {
+	return e.frameFactP(nw, old, allocBound, except, false)
+}
+
+func (e *FnEnc) frameFactP(nw, old, allocBound string, except []modT, pat bool) string {
 	q := fmt.Sprintf("r!q%d", e.nextQ())
-	conds := []string{sx("<=", q, allocBound)}
-	for _, r := range except {
-		conds = append(conds, not(sx("=", q, r)))
+	var conds []string
+	if allocBound != "" {
+		conds = append(conds, sx("<=", q, allocBound))
 	}
-	return fmt.Sprintf("(forall ((%s Int)) (! (=> %s (= (select %s %s) (select %s %s))) :pattern ((select %s %s))))", q, and(conds...), nw, q, old, q, nw, q)
+	byRef := map[string][]string{}
+	var order []string
+	nilSame := sx("=", sx("select", nw, "0"), sx("select", old, "0"))
+	for _, t := range except {
+		if _, ok := byRef[t.ref]; !ok {
+			order = append(order, t.ref)
+			conds = append(conds, not(sx("=", q, t.ref)))
+		}
+		byRef[t.ref] = append(byRef[t.ref], t.idx)
+	}
+	facts := []string{fmt.Sprintf("(forall ((%s Int)) (! (=> %s (= (select %s %s) (select %s %s))) :pattern ((select %s %s))))", q, and(conds...), nw, q, old, q, nw, q)}
+	if !pat {
+		facts = []string{fmt.Sprintf("(forall ((%s Int)) (=> %s (= (select %s %s) (select %s %s))))", q, and(conds...), nw, q, old, q)}
+	}
+	for _, r := range order {
+		whole := false
+		var ic []string
+		qi := fmt.Sprintf("i!q%d", e.nextQ())
+		for _, ix := range byRef[r] {
+			if ix == "" {
+				whole = true
+			} else {
+				ic = append(ic, not(sx("=", qi, ix)))
+			}
+		}
+		if whole {
+			continue
+		}
+		if pat {
+			facts = append(facts, fmt.Sprintf("(forall ((%s Int)) (! (=> %s (= (select (select %s %s) %s) (select (select %s %s) %s))) :pattern ((select (select %s %s) %s))))", qi, and(ic...), nw, r, qi, old, r, qi, nw, r, qi))
+		} else {
+			facts = append(facts, fmt.Sprintf("(forall ((%s Int)) (=> %s (= (select (select %s %s) %s) (select (select %s %s) %s))))", qi, and(ic...), nw, r, qi, old, r, qi))
+		}
+	}
+	facts = append(facts, nilSame)
+	return and(facts...)
 }
 
 func (e *FnEnc) backEdge(from *ssa.BasicBlock, li *loopInfo) {
@@ -491,17 +551,12 @@ func (e *FnEnc) backEdge(from *ssa.BasicBlock, li *loopInfo) {
 	if lc != nil {
 		env := e.specEnv(st, e.initState, over)
 		env.loopOrd = li.ordinal
+		env.pre = li.preState
 		for k, c := range lc.Invariants {
 			if !clauseActive(c, e.prop) {
 				continue
 			}
-			t, err := env.EvalBool(c.Expr)
-			name := fmt.Sprintf("loop%d.inv%d.preserved@b%d", li.ordinal, k+1, from.Index)
-			if err != nil {
-				e.bindFail(name, err.Error()+" in "+c.Src)
-				continue
-			}
-			e.oblige(&Obligation{Name: name, Kind: "inv-preserved", Clause: c.Src, Tags: c.Tags, Guard: g, Goal: t, Pos: fmt.Sprintf("%s:%d", shortFile(c.File), c.Line)})
+			e.obligeClause(env, c, fmt.Sprintf("loop%d.inv%d.preserved@b%d", li.ordinal, k+1, from.Index), "inv-preserved", g, fmt.Sprintf("%s:%d", shortFile(c.File), c.Line))
 		}
 		if lc.Decreases != nil {
 			envH := e.specEnv(li.hdrState, e.initState, nil)
@@ -529,7 +584,7 @@ func (e *FnEnc) backEdge(from *ssa.BasicBlock, li *loopInfo) {
 			continue
 		}
 		e.oblige(&Obligation{Name: fmt.Sprintf("loop%d.frame.%s@b%d", li.ordinal, name, from.Index), Kind: "frame", Clause: "objects allocated before the loop and not in its modifies clause are unchanged",
-			Guard: g, Goal: e.frameFact(nw, e.heapIn(li.preState, hv), li.preAlloc, li.modRefs[name])})
+			Guard: g, Goal: e.frameGoal(nw, e.heapIn(li.preState, hv), li.preAlloc, li.modRefs[name])})
 	}
 	e.curGuard, e.cur = saveG, saveC
 }
@@ -560,13 +615,7 @@ func (e *FnEnc) ret(r *ssa.Return) {
 		if !clauseActive(c, e.prop) {
 			continue
 		}
-		t, err := env.EvalBool(c.Expr)
-		name := fmt.Sprintf("ensures%d@%s", k+1, e.posOf(r))
-		if err != nil {
-			e.bindFail(name, err.Error()+" in "+c.Src)
-			continue
-		}
-		e.oblige(&Obligation{Name: name, Kind: "post", Clause: c.Src, Tags: c.Tags, Guard: e.curGuard, Goal: t, Pos: e.posOf(r)})
+		e.obligeClause(env, c, fmt.Sprintf("ensures%d@%s", k+1, e.posOf(r)), "post", e.curGuard, e.posOf(r))
 	}
 	// frame of the whole function: pre-existing objects not in modifies are unchanged
 	for _, name := range sortedKeys(e.heapVars) {
@@ -579,7 +628,7 @@ func (e *FnEnc) ret(r *ssa.Return) {
 			continue
 		}
 		e.oblige(&Obligation{Name: fmt.Sprintf("frame.%s@%s", name, e.posOf(r)), Kind: "frame", Clause: "objects that existed at entry and are not in the modifies clause are unchanged",
-			Guard: e.curGuard, Goal: e.frameFact(nw, name+"@0", "alloc@0", e.modRefsFn[name])})
+			Guard: e.curGuard, Goal: e.frameGoal(nw, name+"@0", "alloc@0", e.modRefsFn[name])})
 	}
 }
 
@@ -830,7 +879,7 @@ func (e *FnEnc) contractCall(v ssa.Value, con *FuncContract, callee *ssa.Functio
 		e.assume(t)
 	}
 	// havoc declared modifies
-	mods := map[string][]string{}
+	mods := map[string][]modT{}
 	for _, c := range con.Modifies {
 		e.addModRef(env, c, mods)
 	}
@@ -838,12 +887,7 @@ func (e *FnEnc) contractCall(v ssa.Value, con *FuncContract, callee *ssa.Functio
 		hv := e.heapVars[name]
 		old := e.heap(hv)
 		nw := e.havocHeap(hv)
-		q := fmt.Sprintf("r!q%d", e.nextQ())
-		var conds []string
-		for _, r := range mods[name] {
-			conds = append(conds, not(sx("=", q, r)))
-		}
-		e.assume(fmt.Sprintf("(forall ((%s Int)) (! (=> %s (= (select %s %s) (select %s %s))) :pattern ((select %s %s))))", q, and(conds...), nw, q, old, q, nw, q))
+		e.assume(e.frameFact(nw, old, "", mods[name]))
 	}
 	oa := e.alloc()
 	na := e.declare("alloc", "Int")
@@ -878,5 +922,22 @@ func (e *FnEnc) contractCall(v ssa.Value, con *FuncContract, callee *ssa.Functio
 		case rs.Len() > 1:
 			e.vals[v] = Val{Ty: v.Type(), Tup: res}
 		}
+	}
+}
+
+// obligeClause evaluates a clause conjunct by conjunct and records one obligation per conjunct.
+func (e *FnEnc) obligeClause(env *Env, c Clause, name, kind, guard, pos string) {
+	t, err := env.EvalBool(c.Expr)
+	if err != nil {
+		e.bindFail(name, err.Error()+" in "+c.Src)
+		return
+	}
+	parts := splitGoal(t)
+	for k, pt := range parts {
+		n := name
+		if len(parts) > 1 {
+			n = fmt.Sprintf("%s.%d", name, k+1)
+		}
+		e.oblige(&Obligation{Name: n, Kind: kind, Clause: c.Src, Tags: c.Tags, Guard: guard, Goal: pt, Pos: pos})
 	}
 }
